@@ -1,7 +1,7 @@
 (* C01 (and the conservation half of C03): ledger conservation for the thread-pool core model, for ALL accepted event
    sequences (any number of threads, tasks, pool sizes incl. 0, interleaved resizes). *)
 From Coq Require Import ZArith List Bool Lia.
-From DV Require Import Model.PoolModel Proofs.PoolProofs.
+From DV Require Import Model.PoolModel Proofs.PoolProofs Proofs.C03Proofs.
 Import ListNotations.
 Local Open Scope Z_scope.
 
@@ -43,7 +43,400 @@ Section C01.
     all: destruct e; cbn [is_rz_event] in H; inv_guards H; subst s'; unfold tot; simp_proj;
       rewrite ?(sumf_lset (cnt t) [] (eq_refl _)), ?(sumf_lset (fun th => cnt t (th_ids th)) th0 (eq_refl _)), ?sumf_app, ?(sumf_repeat0 (cnt t) [] _ (eq_refl _));
       fold th; simp_proj; split_kinds; unfold th_ids in *; simp_ids; bool_hyps; rw_eqs; simp_ids; pose_cnt t; cnt_norm; split_ifs.
-    all: try lia.
-    Show.
-  Abort.
+    all: lia.
+  Qed.
+
+  Lemma accept_gens s tid e s' : accept s tid e = Some s' ->
+    gens s' = gens s \/ exists t, gens s' = t :: gens s /\ mem t (gens s) = false.
+  Proof.
+    intros H. unfold accept, accept_rz, getT in H.
+    set (th := lget th0 tid (threads s)) in *.
+    destruct (trole th) eqn:Hrole; try discriminate H.
+    all: destruct e; cbn [is_rz_event] in H; inv_guards H; subst s'; simp_proj; auto.
+    all: right; eexists; split; [reflexivity|]; bool_hyps; assumption.
+  Qed.
+
+  (* the ledger invariant: every generated id is in exactly one place (or has completed exactly once) *)
+  Definition Cons (s : state) : Prop := NoDup (gens s) /\ forall t, tot t s = cnt t (gens s).
+
+  Lemma Cons_init n0 : Cons (init share n0).
+  Proof.
+    split; [constructor|]. intros t. unfold tot, init. cbn.
+    rewrite !(sumf_repeat0 (cnt t) [] _ (eq_refl _)). reflexivity.
+  Qed.
+
+  Lemma Cons_step s tid e s' : Cons s -> accept s tid e = Some s' -> Cons s'.
+  Proof.
+    intros [ND I] H. split.
+    - destruct (accept_gens _ _ _ _ H) as [->|[t [-> Hm]]]; [assumption|].
+      constructor; [|assumption]. intros Hin. apply cnt_In in Hin. apply cnt_mem in Hm. lia.
+    - intros t. pose proof (accept_delta _ _ _ _ H t). specialize (I t). lia.
+  Qed.
+
+  Lemma Cons_accepts tr : forall s s', Cons s -> accepts s tr = Some s' -> Cons s'.
+  Proof.
+    induction tr as [|[t e] r IH]; cbn [PoolModel.accepts]; intros s s' C H; [injection H as <-; exact C|].
+    destruct (accept s t e) as [s1|] eqn:E; [|discriminate]. eapply IH; [|exact H]. eapply Cons_step; eauto.
+  Qed.
+
+  Lemma tot_parts_nonneg t s :
+    0 <= cnt t (map snd (central s)) /\ 0 <= sumf (cnt t) (rings s) /\ 0 <= sumf (cnt t) (steals s) /\
+    0 <= sumf (fun th => cnt t (th_ids th)) (threads s) /\ 0 <= cnt t (done s).
+  Proof.
+    repeat split; try apply cnt_nonneg; apply sumf_nonneg; intros; apply cnt_nonneg.
+  Qed.
+
+  (* C01 pool_conservation *)
+  Theorem conservation n0 tr s : accepts (init share n0) tr = Some s ->
+    NoDup (gens s) /\
+    (forall t, In t (gens s) -> tot t s = 1 /\ cnt t (done s) <= 1) /\
+    (forall t, ~ In t (gens s) -> tot t s = 0 /\ cnt t (done s) = 0).
+  Proof.
+    intros H. destruct (Cons_accepts _ _ _ (Cons_init n0) H) as [ND I]. split; [exact ND|]. split; intros t Ht.
+    - pose proof (proj1 (cnt_NoDup _) ND t). apply cnt_In in Ht. pose proof (tot_parts_nonneg t s). specialize (I t). unfold tot in *. lia.
+    - assert (cnt t (gens s) = 0) by (pose proof (cnt_nonneg t (gens s)); destruct (Z.eq_dec (cnt t (gens s)) 0); [assumption | exfalso; apply Ht, cnt_In; lia]).
+      pose proof (tot_parts_nonneg t s). specialize (I t). unfold tot in *. lia.
+  Qed.
+
+  (* every single event -- in particular every event of resizeLocked -- preserves the ledger invariant (C03 resize_conservation) *)
+  Theorem step_conservation s tid e s' : Cons s -> accept s tid e = Some s' -> Cons s'.
+  Proof. exact (Cons_step s tid e s'). Qed.
+
+  (* ---------- frame: an event of thread u does not touch the record of another thread ---------- *)
+  Lemma accept_frame s u e s' tid : accept s u e = Some s' -> u <> tid -> getT s' tid = getT s tid.
+  Proof.
+    intros H Hne. unfold accept, accept_rz in H.
+    set (th := getT s u) in *.
+    destruct (trole th) eqn:Hrole; try discriminate H.
+    all: destruct e; cbn [is_rz_event] in H; inv_guards H; subst s'; unfold getT; simp_proj; try reflexivity.
+    all: apply lget_lset_other; assumption.
+  Qed.
+
+  (* ---------- ring_overflow_falls_back ---------- *)
+  Lemma ring_push_fail_sets_pc s tid r s' : accept s tid (ERingPushFail r) = Some s' ->
+    tpc (getT s' tid) = PMustCentral /\ pend (getT s' tid) = pend (getT s tid) /\ pend (getT s tid) <> [].
+  Proof.
+    intros H. unfold accept in H. cbn [is_rz_event] in H.
+    destruct (trole (getT s tid)); try discriminate H.
+    all: inv_guards H; try subst s'; rewrite getT_setT_same; simp_proj; bool_hyps; auto.
+  Qed.
+
+  Lemma must_central_next s tid e s' : tpc (getT s tid) = PMustCentral -> accept s tid e = Some s' ->
+    exists tok t rest, e = EEnqCentral tok 1 /\ pend (getT s tid) = t :: rest /\ pend (getT s' tid) = rest /\
+                       In (pkey tid tok, t) (central s') /\
+                       tpc (getT s' tid) = (if nilb rest then PFellBack else PMustCentral).
+  Proof.
+    intros Hpc H. unfold accept in H.
+    set (th := getT s tid) in *.
+    destruct (trole th) eqn:Hrole; try discriminate H.
+    all: rewrite Hpc in H; destruct e; cbn [pc_allows negb is_rz_event pc_free pc_eqb orb andb] in H; try discriminate H.
+    all: inv_guards H; bool_hyps; subst.
+    all: destruct (pend th) as [|t rest] eqn:Hp; [unfold len in *; cbn [length] in *; lia|].
+    all: exists tok, t, rest; rewrite getT_setT_same || (unfold getT; simp_proj; rewrite lget_lset_same); simp_proj.
+    all: change (Z.to_nat 1) with 1%nat; cbn [firstn skipn map].
+    all: repeat split; try reflexivity.
+    all: apply in_or_app; right; left; reflexivity.
+  Qed.
+
+  (* the obligation created by a failed ring push survives the events of all other threads *)
+  Lemma obligation_stable tr : forall s s' tid, accepts s tr = Some s' -> (forall u e, In (u, e) tr -> u <> tid) ->
+    getT s' tid = getT s tid.
+  Proof.
+    induction tr as [|[u e] r IH]; cbn [PoolModel.accepts]; intros s s' tid H Hn; [injection H as <-; reflexivity|].
+    destruct (accept s u e) as [s1|] eqn:E; [|discriminate].
+    rewrite (IH _ _ _ H) by (intros; eapply Hn; right; eauto).
+    eapply accept_frame; [exact E|]. eapply Hn. left. reflexivity.
+  Qed.
+
+  (* C01 ring_overflow_falls_back: after a failed ring push of thread tid (id t at the head of its pending list), whatever the
+     other threads do, the next event of tid is the central enqueue of that same id *)
+  Theorem ring_overflow_falls_back s tid r s1 : accept s tid (ERingPushFail r) = Some s1 ->
+    exists t rest, pend (getT s1 tid) = t :: rest /\
+      forall tr s2 e s3, accepts s1 tr = Some s2 -> (forall u e', In (u, e') tr -> u <> tid) -> accept s2 tid e = Some s3 ->
+        exists tok, e = EEnqCentral tok 1 /\ In (pkey tid tok, t) (central s3) /\ pend (getT s3 tid) = rest.
+  Proof.
+    intros H. destruct (ring_push_fail_sets_pc _ _ _ _ H) as [Hpc [Hp Hne]].
+    destruct (pend (getT s1 tid)) as [|t rest] eqn:Hp1; [congruence|].
+    exists t, rest. split; [reflexivity|]. intros tr s2 e s3 Htr Hn He.
+    pose proof (obligation_stable _ _ _ _ Htr Hn) as Hst.
+    destruct (must_central_next s2 tid e s3) as [tok [t' [rest' [-> [Hp2 [Hp3 [Hin _]]]]]]]; [rewrite Hst; exact Hpc | exact He|].
+    rewrite Hst, Hp1 in Hp2. injection Hp2 as <- <-. exists tok. auto.
+  Qed.
+
+  (* zero-thread pool: forceEnqueue reads numThreads_ == 0 and must run the task inline on the submitter *)
+  Theorem zero_threads_runs_inline s tid nz s1 : numThreads s = 0 -> accept s tid (ELoadNumThreads nz 1) = Some s1 ->
+    nz = false /\ tpc (getT s1 tid) = PMustInline /\
+    forall tr s2 e s3, accepts s1 tr = Some s2 -> (forall u e', In (u, e') tr -> u <> tid) -> accept s2 tid e = Some s3 ->
+      exists site t rest, e = EInline site /\ pend (getT s2 tid) = t :: rest /\ held (getT s3 tid) = Some (t, KInline).
+  Proof.
+    intros Hz H. unfold accept in H. set (th := getT s tid) in *.
+    assert (nz = false /\ tpc (getT s1 tid) = PMustInline) as [-> Hpc].
+    { destruct (trole th); try discriminate H.
+      all: cbn [is_rz_event] in H; inv_guards H; bool_hyps; subst s1; rewrite ?getT_setT_same; simp_proj.
+      all: rewrite Hz in *; cbn in *; try discriminate; destruct nz; cbn in *; try discriminate; auto; try congruence. }
+    split; [reflexivity|]. split; [exact Hpc|].
+    intros tr s2 e s3 Htr Hn He. pose proof (obligation_stable _ _ _ _ Htr Hn) as Hst.
+    unfold accept in He. rewrite Hst, Hpc in He.
+    destruct (trole (getT s1 tid)); try discriminate He.
+    all: destruct e; cbn [pc_allows negb is_rz_event] in He; try discriminate He.
+    all: rewrite <- Hst in He; inv_guards He; subst s3; rewrite getT_setT_same; simp_proj; eauto.
+    all: exists site, i, l; auto.
+  Qed.
+
+  (* ---------- dtor_drains_all ---------- *)
+  Definition is_worker (th : thread) : Z := match trole th with RWorker _ => 1 | _ => 0 end.
+  Definition wcount (s : state) : Z := sumf is_worker (threads s).
+
+  Lemma accept_wcount s tid e s' : accept s tid e = Some s' -> nworkers s' - wcount s' = nworkers s - wcount s.
+  Proof.
+    intros H. unfold accept, accept_rz, getT in H.
+    set (th := lget th0 tid (threads s)) in *.
+    destruct (trole th) eqn:Hrole; try discriminate H.
+    all: destruct e; cbn [is_rz_event] in H; inv_guards H; subst s'; unfold wcount; simp_proj;
+      rewrite ?(sumf_lset is_worker th0 (eq_refl _)); fold th; unfold is_worker; simp_proj; rewrite ?Hrole; try lia.
+    all: destruct h; simp_proj; rewrite Hrole; lia.
+  Qed.
+
+  Lemma wcount_inv n0 tr s : accepts (init share n0) tr = Some s -> nworkers s = wcount s.
+  Proof.
+    assert (forall tr s s', accepts s tr = Some s' -> nworkers s' - wcount s' = nworkers s - wcount s) as G.
+    { clear. induction tr as [|[t e] r IH]; cbn [PoolModel.accepts]; intros s s' H; [injection H as <-; reflexivity|].
+      destruct (accept s t e) as [s1|] eqn:E; [|discriminate]. rewrite (IH _ _ H). eapply accept_wcount; eauto. }
+    intros H. specialize (G _ _ _ H). assert (nworkers (init share n0) - wcount (init share n0) = 0) by reflexivity. lia.
+  Qed.
+
+  Lemma wcount_zero s u : wcount s = 0 -> is_worker (getT s u) = 0.
+  Proof.
+    intros H. unfold getT, lget. destruct (Nat.lt_ge_cases u (length (threads s))) as [Hl|Hl].
+    - eapply sumf_zero_all; [| exact H | apply nth_In; exact Hl]. intros x. unfold is_worker. destruct (trole x); lia.
+    - rewrite nth_overflow by assumption. reflexivity.
+  Qed.
+
+  Definition is_gen (e : event) : bool := match e with EGen _ => true | _ => false end.
+
+  (* a thread with nothing pending cannot place anything; its pending list stays empty unless it generates *)
+  Lemma accept_pend_empty s u e s' : is_gen e = false -> pend (getT s u) = [] -> accept s u e = Some s' ->
+    pend (getT s' u) = [] /\ stale_place share s u e = 0.
+  Proof.
+    intros Hg Hp H. unfold accept, accept_rz in H. unfold PoolModel.stale_place.
+    set (th := getT s u) in *.
+    destruct (trole th) eqn:Hrole; try discriminate H.
+    all: destruct e; try discriminate Hg; cbn [is_rz_event] in H; rewrite ?Hp in H; cbn [nilb negb andb len length Z.of_nat] in H;
+      inv_guards H; try subst s'; rewrite ?getT_setT_same; unfold getT; simp_proj; rewrite ?lget_lset_same; simp_proj; fold (getT s u); fold th; rewrite ?Hp.
+    all: bool_hyps; try discriminate; try lia; try (split; reflexivity); try (split; [assumption|reflexivity]).
+    all: destruct h; simp_proj; auto.
+  Qed.
+
+  Definition joined (ph : phase) : bool :=
+    match ph with PhBegin | PhStopped | PhWoken | PhCentral1 | PhJoining => false | _ => true end.
+  Definition is_dtor_end (e : event) : bool := match e with EDtorEnd => true | _ => false end.
+
+  Lemma accept_rz_nonowner s a e s' d dt n ph : rz s = RActive d dt n ph -> a <> d -> accept s a e = Some s' -> rz s' = rz s.
+  Proof.
+    intros Hrz Hne H. unfold accept, accept_rz in H. rewrite Hrz in H.
+    set (th := getT s a) in *.
+    destruct (trole th) eqn:Hrole; try discriminate H.
+    all: destruct e; cbn [is_rz_event] in H; inv_guards H; try subst s'; simp_proj; try reflexivity.
+    all: bool_hyps; congruence.
+  Qed.
+
+  Lemma accept_role s a e s' : accept s a e = Some s' ->
+    trole (getT s a) <> REnded /\
+    (trole (getT s' a) = trole (getT s a) \/
+     (trole (getT s a) = RNone /\ exists i, trole (getT s' a) = RWorker i) \/
+     ((exists i, trole (getT s a) = RWorker i) /\ trole (getT s' a) = REnded /\ th_ids (getT s' a) = [])).
+  Proof.
+    intros H. unfold accept, accept_rz in H.
+    set (th := getT s a) in *.
+    destruct (trole th) eqn:Hrole; try discriminate H.
+    all: split; [discriminate|].
+    all: destruct e; cbn [is_rz_event] in H; inv_guards H; try subst s'; rewrite ?getT_setT_same; unfold getT; simp_proj;
+      rewrite ?lget_lset_same; simp_proj; fold (getT s a); fold th; rewrite ?Hrole; auto.
+    all: try (destruct h; simp_proj; rewrite ?Hrole; auto).
+    all: try (right; left; split; [reflexivity | eexists; reflexivity]).
+    all: right; right; split; [eexists; reflexivity|]; split; [reflexivity|].
+    all: unfold idle_thread in *; bool_hyps; unfold th_ids; simp_proj.
+    all: repeat match goal with H : _ = [] |- _ => rewrite H end; match goal with H : held _ = None |- _ => rewrite H end; reflexivity.
+  Qed.
+
+  Lemma accept_dtor_owner s d n ph e s' : rz s = RActive d true n ph -> is_dtor_end e = false -> accept s d e = Some s' ->
+    exists ph', rz s' = RActive d true n ph' /\ (joined ph = true -> joined ph' = true) /\
+                (joined ph = false -> joined ph' = true -> nworkers s' = 0).
+  Proof.
+    intros Hrz Hde H. unfold accept, accept_rz in H. rewrite Hrz in H.
+    set (th := getT s d) in *.
+    destruct (trole th) eqn:Hrole; try discriminate H.
+    all: destruct e; try discriminate Hde; cbn [is_rz_event] in H; inv_guards H; try subst s'; simp_proj; rewrite ?Hrz.
+    all: try (eexists; split; [reflexivity|]; split; [tauto | intros A B; rewrite A in B; discriminate B]).
+    all: unfold after_ring, after_steal; unfold ring_phase; unfold steal_phase.
+    all: repeat match goal with |- context[if ?b then _ else _] => destruct b end.
+    all: eexists; split; [reflexivity|]; cbn [joined]; split; intros; try reflexivity; try discriminate; try assumption; bool_hyps; try assumption.
+  Qed.
+
+  Definition joinedb (r : rzs) : bool := match r with RActive _ _ _ ph => joined ph | RDead => true | RIdle => false end.
+
+  (* the documented contract of ~ThreadPool, as predicates on the state in which the destructor starts and on the events after it:
+     no submission is in progress, threads other than the destructor's and the pool's own workers are not inside the pool and
+     make no call while the destructor runs, and nothing new is submitted *)
+  Definition quiet (s1 : state) (d : nat) : Prop :=
+    (forall u, pend (getT s1 u) = []) /\
+    (forall u, u <> d -> is_worker (getT s1 u) = 0 -> th_ids (getT s1 u) = []).
+  Definition contract_event (s1 : state) (d : nat) (ae : nat * event) : Prop :=
+    is_gen (snd ae) = false /\ is_dtor_end (snd ae) = false /\ (fst ae = d \/ is_worker (getT s1 (fst ae)) = 1).
+
+  Record J (s1 : state) (d : nat) (s : state) : Prop := {
+    Jrz : exists n ph, rz s = RActive d true n ph;
+    Jpend : forall u, pend (getT s u) = [];
+    Jcov : CovP share s;
+    Jw : nworkers s = wcount s;
+    Jk1 : forall u, u <> d -> is_worker (getT s1 u) = 0 -> getT s u = getT s1 u;
+    Jk2 : forall u, u <> d -> is_worker (getT s1 u) = 1 ->
+            ((exists i, trole (getT s u) = RWorker i) /\ joinedb (rz s) = false) \/
+            (trole (getT s u) = REnded /\ th_ids (getT s u) = []) }.
+
+  Lemma is_worker_cases th : (is_worker th = 1 /\ exists i, trole th = RWorker i) \/ (is_worker th = 0 /\ forall i, trole th <> RWorker i).
+  Proof. unfold is_worker. destruct (trole th); [right | left | right]; split; eauto; try discriminate; try reflexivity. Qed.
+
+  Lemma J_step s1 d s a e s' : J s1 d s -> contract_event s1 d (a, e) -> accept s a e = Some s' -> J s1 d s'.
+  Proof.
+    intros [[n [ph Hrz]] Hp Hc Hw K1 K2] (Hg & Hde & Ha) H. cbn [fst snd] in *.
+    destruct (accept_pend_empty _ _ _ _ Hg (Hp a) H) as [Hp' Hst].
+    pose proof (accept_wcount _ _ _ _ H) as Hwc.
+    assert (exists n' ph', rz s' = RActive d true n' ph' /\ (joined ph = true -> joined ph' = true) /\
+                           (joined ph = false -> joined ph' = true -> nworkers s' = 0)) as (n' & ph' & Hrz' & Hj1 & Hj2).
+    { destruct (Nat.eq_dec a d) as [->|Hne].
+      - destruct (accept_dtor_owner _ _ _ _ _ _ Hrz Hde H) as (ph' & A & B & C). exists n, ph'. auto.
+      - rewrite (accept_rz_nonowner _ _ _ _ _ _ _ _ Hrz Hne H). exists n, ph. rewrite Hrz. split; [reflexivity|]. split; [tauto|]. intros A B. rewrite A in B. discriminate. }
+    constructor.
+    - eauto.
+    - intros u. destruct (Nat.eq_dec a u) as [<-|Hne]; [exact Hp'|]. rewrite (accept_frame _ _ _ _ _ H Hne). apply Hp.
+    - eapply cov_step; eauto.
+    - lia.
+    - intros u Hu Hwk. rewrite <- (K1 u Hu Hwk). apply (accept_frame _ _ _ _ _ H). intros ->. destruct Ha as [?|Ha]; [contradiction | rewrite Ha in Hwk; discriminate].
+    - intros u Hu Hwk. specialize (K2 u Hu Hwk). destruct (Nat.eq_dec a u) as [<-|Hne].
+      + destruct (accept_role _ _ _ _ H) as [Hnot [Hsame | [[Hnone _] | [_ [Hend Hids]]]]].
+        * destruct K2 as [[Hr Hjb] | [Hr _]]; [|rewrite Hr in Hnot; contradiction].
+          left. rewrite Hsame. split; [exact Hr|]. rewrite (accept_rz_nonowner _ _ _ _ _ _ _ _ Hrz Hu H). exact Hjb.
+        * destruct K2 as [[[i Hr] _] | [Hr _]]; rewrite Hr in Hnone; discriminate.
+        * right. auto.
+      + rewrite (accept_frame _ _ _ _ _ H Hne). destruct K2 as [[Hr Hjb] | K2]; [|right; exact K2].
+        left. split; [exact Hr|]. rewrite Hrz'. rewrite Hrz in Hjb. cbn [joinedb] in *.
+        destruct (joined ph') eqn:E; [|reflexivity]. exfalso.
+        specialize (Hj2 Hjb eq_refl). assert (wcount s' = 0) as Hz by lia.
+        pose proof (wcount_zero _ u Hz) as Hzu. rewrite (accept_frame _ _ _ _ _ H Hne) in Hzu.
+        destruct Hr as [i Hr]. unfold is_worker in Hzu. rewrite Hr in Hzu. discriminate.
+  Qed.
+
+  Lemma J_accepts s1 d tr : forall s s', J s1 d s -> Forall (contract_event s1 d) tr -> accepts s tr = Some s' -> J s1 d s'.
+  Proof.
+    induction tr as [|[a e] r IH]; cbn [PoolModel.accepts]; intros s s' Hj Hf H; [injection H as <-; exact Hj|].
+    destruct (accept s a e) as [s2|] eqn:E; [|discriminate]. inversion Hf; subst.
+    eapply IH; [| eassumption | exact H]. eapply J_step; eauto.
+  Qed.
+
+  Lemma accepts_app tr1 : forall tr2 s s', accepts s (tr1 ++ tr2) = Some s' -> exists s1, accepts s tr1 = Some s1 /\ accepts s1 tr2 = Some s'.
+  Proof.
+    induction tr1 as [|[a e] r IH]; cbn [app PoolModel.accepts]; intros tr2 s s' H; [eauto|].
+    destruct (accept s a e) as [s2|]; [|discriminate]. apply IH. exact H.
+  Qed.
+  Lemma accepts_app2 tr1 : forall tr2 s s1 s', accepts s tr1 = Some s1 -> accepts s1 tr2 = Some s' -> accepts s (tr1 ++ tr2) = Some s'.
+  Proof.
+    induction tr1 as [|[a e] r IH]; cbn [app PoolModel.accepts]; intros tr2 s s1 s' H1 H2; [injection H1 as ->; exact H2|].
+    destruct (accept s a e) as [s2|]; [|discriminate]. eapply IH; eauto.
+  Qed.
+
+  (* C01 dtor_drains_all *)
+  Theorem dtor_drains_all n0 tr1 s1 d tr3 s :
+    accepts (init share n0) tr1 = Some s1 -> quiet s1 d ->
+    Forall (contract_event s1 d) tr3 ->
+    accepts s1 ((d, EDtorBegin) :: tr3 ++ [(d, EDtorEnd)]) = Some s ->
+    rz s = RDead /\ central s = [] /\ (forall j, lget [] j (rings s) = []) /\ (forall j, lget [] j (steals s) = []) /\
+    (forall u, th_ids (getT s u) = []) /\
+    forall t, In t (gens s) -> cnt t (done s) = 1.
+  Proof.
+    intros H1 [Qp Qi] Hf H.
+    cbn [PoolModel.accepts] in H. destruct (accept s1 d EDtorBegin) as [sa|] eqn:Ea; [|discriminate].
+    destruct (accepts_app _ _ _ _ H) as (sb & Hb & He). cbn [PoolModel.accepts] in He.
+    destruct (accept sb d EDtorEnd) as [s'|] eqn:Ee; [|discriminate]. injection He as ->.
+    (* J after the destructor's first event *)
+    assert (J s1 d sa) as Ja.
+    { assert (rz sa = RActive d true 0 PhBegin /\ threads sa = threads s1 /\ rings sa = rings s1 /\ steals sa = steals s1 /\ central sa = central s1 /\ nworkers sa = nworkers s1) as (Hrz & Hth & _).
+      { unfold accept, accept_rz in Ea. destruct (trole (getT s1 d)); try discriminate Ea.
+        all: cbn [is_rz_event] in Ea; inv_guards Ea; subst sa; simp_proj; repeat split; reflexivity. }
+      assert (forall u, getT sa u = getT s1 u) as Hg by (intros u; unfold getT; rewrite Hth; reflexivity).
+      constructor.
+      - eauto.
+      - intros u. rewrite Hg. apply Qp.
+      - unfold CovP, cov_rings, cov_steals, cov_central, aux, PoolModel.ring_open, PoolModel.steal_open, central_open. rewrite Hrz. cbn.
+        repeat split; intros; apply orb_true_r.
+      - pose proof (wcount_inv _ _ _ H1). pose proof (accept_wcount _ _ _ _ Ea). lia.
+      - intros u _ _. apply Hg.
+      - intros u Hu Hwk. left. rewrite Hg, Hrz. split; [|reflexivity].
+        destruct (is_worker_cases (getT s1 u)) as [[_ Hr] | [Hz _]]; [exact Hr | rewrite Hz in Hwk; discriminate]. }
+    pose proof (J_accepts _ _ _ _ _ Ja Hf Hb) as [[n [ph Hrz]] Hp Hc Hw K1 K2].
+    (* the last event *)
+    assert (rz s = RDead /\ ph = PhDrained /\ th_ids (getT s d) = [] /\ forall u, u <> d -> getT s u = getT sb u) as (Hdead & -> & Hd & Hfr).
+    { unfold accept, accept_rz in Ee. rewrite Hrz in Ee. destruct (trole (getT sb d)); try discriminate Ee.
+      all: cbn [is_rz_event] in Ee; inv_guards Ee; subst s; simp_proj; bool_hyps; repeat split; try reflexivity.
+      all: unfold th_ids, getT in *; simp_proj; repeat match goal with H : _ = [] |- _ => rewrite H end; try match goal with H : held _ = None |- _ => rewrite H end; reflexivity. }
+    assert (stale_place share sb d EDtorEnd = 0) as Hst by reflexivity.
+    pose proof (cov_step _ _ _ _ _ _ _ Hc Ee Hst) as (Cr & Cs & Cc & _).
+    unfold cov_rings, cov_steals, cov_central, PoolModel.ring_open, PoolModel.steal_open, central_open, fut_rings, fut_steal in *.
+    rewrite Hdead in *. cbn [orb] in *.
+    assert (central s = []) as E1 by (destruct (central s); [reflexivity | exfalso; assert (false = true) by (apply Cc; discriminate); discriminate]).
+    assert (forall j, lget [] j (rings s) = []) as E2.
+    { intros j. destruct (lget [] j (rings s)) eqn:E; [reflexivity|]. exfalso. assert (lget [] j (rings s) <> []) as Hn by (rewrite E; discriminate).
+      specialize (Cr j Hn). destruct (Z.of_nat j <? 0) eqn:E0; [apply Z.ltb_lt in E0; lia | discriminate Cr]. }
+    assert (forall j, lget [] j (steals s) = []) as E3.
+    { intros j. destruct (lget [] j (steals s)) eqn:E; [reflexivity|]. exfalso. assert (lget [] j (steals s) <> []) as Hn by (rewrite E; discriminate).
+      specialize (Cs j Hn). destruct (Z.of_nat j <? 0) eqn:E0; [apply Z.ltb_lt in E0; lia | discriminate Cs]. }
+    assert (forall u, th_ids (getT s u) = []) as E4.
+    { intros u. destruct (Nat.eq_dec u d) as [->|Hu]; [exact Hd|]. rewrite (Hfr u Hu).
+      destruct (is_worker_cases (getT s1 u)) as [[Hwk _] | [Hz _]].
+      - destruct (K2 u Hu Hwk) as [[_ Hjb] | [_ Hids]]; [|exact Hids]. rewrite Hrz in Hjb. discriminate Hjb.
+      - rewrite (K1 u Hu Hz). apply Qi; assumption. }
+    repeat split; try assumption.
+    intros t Ht.
+    assert (accepts (init share n0) (tr1 ++ (d, EDtorBegin) :: tr3 ++ [(d, EDtorEnd)]) = Some s) as Hall.
+    { eapply accepts_app2; [exact H1|]. cbn [PoolModel.accepts]. rewrite Ea. eapply accepts_app2; [exact Hb|]. cbn [PoolModel.accepts]. rewrite Ee. reflexivity. }
+    destruct (conservation _ _ _ Hall) as (_ & Hin & _). destruct (Hin t Ht) as [Htot _].
+    unfold tot in Htot. rewrite E1 in Htot. cbn [map] in Htot. rewrite cnt_nil in Htot.
+    assert (forall (l : list (list id)), (forall j, lget [] j l = []) -> sumf (cnt t) l = 0) as Hs0.
+    { clear. intros l Hl. assert (forall x, In x l -> x = []) as Hx.
+      { intros x Hin. destruct (In_nth _ _ [] Hin) as (j & _ & Hj). rewrite <- Hj. apply Hl. }
+      clear Hl. induction l as [|x r IH]; cbn; [reflexivity|]. rewrite (Hx x) by (left; reflexivity). rewrite cnt_nil, IH; [reflexivity|]. intros; apply Hx; right; assumption. }
+    rewrite (Hs0 _ E2), (Hs0 _ E3) in Htot.
+    assert (sumf (fun th => cnt t (th_ids th)) (threads s) = 0) as Ht0.
+    { assert (forall x, In x (threads s) -> th_ids x = []) as Hx.
+      { intros x Hix. destruct (In_nth _ _ th0 Hix) as (j & _ & Hj). rewrite <- Hj. apply (E4 j). }
+      clear -Hx. induction (threads s) as [|x r IH]; cbn; [reflexivity|]. rewrite (Hx x) by (left; reflexivity). rewrite cnt_nil, IH; [reflexivity|]. intros; apply Hx; right; assumption. }
+    rewrite Ht0 in Htot. lia.
+  Qed.
+
+  (* executable form of [quiet] (for concrete instances) *)
+  Fixpoint forall_idx {A} (f : nat -> A -> bool) (i : nat) (l : list A) : bool :=
+    match l with [] => true | x :: r => f i x && forall_idx f (S i) r end.
+  Lemma forall_idx_nth {A} (f : nat -> A -> bool) d l : forall i, forall_idx f i l = true -> forall j, (j < length l)%nat -> f (i + j)%nat (nth j l d) = true.
+  Proof.
+    induction l as [|x r IH]; cbn [forall_idx length]; intros i H j Hj; [lia|].
+    apply andb_prop in H. destruct H as [H1 H2]. destruct j as [|j]; cbn [nth].
+    - rewrite Nat.add_0_r. exact H1.
+    - replace (i + S j)%nat with (S i + j)%nat by lia. apply IH; [exact H2 | lia].
+  Qed.
+  Definition quietb (s1 : state) (d : nat) : bool :=
+    forall_idx (fun u th => nilb (pend th) && (Nat.eqb u d || (is_worker th =? 1) || nilb (th_ids th))) 0 (threads s1).
+  Lemma quietb_sound s1 d : quietb s1 d = true -> quiet s1 d.
+  Proof.
+    intros H. unfold quietb in H. split.
+    - intros u. unfold getT, lget. destruct (Nat.lt_ge_cases u (length (threads s1))) as [Hl|Hl].
+      + pose proof (forall_idx_nth _ th0 _ _ H u Hl) as E. cbn in E. apply andb_prop in E. destruct E as [E _]. apply nilb_true in E. exact E.
+      + rewrite nth_overflow by assumption. reflexivity.
+    - intros u Hu Hw. unfold getT, lget in *. destruct (Nat.lt_ge_cases u (length (threads s1))) as [Hl|Hl].
+      + pose proof (forall_idx_nth _ th0 _ _ H u Hl) as E. cbn in E. apply andb_prop in E. destruct E as [_ E].
+        apply orb_prop in E. destruct E as [E|E]; [apply orb_prop in E; destruct E as [E|E]|].
+        * apply Nat.eqb_eq in E. contradiction.
+        * apply Z.eqb_eq in E. lia.
+        * apply nilb_true in E. exact E.
+      + rewrite nth_overflow by assumption. reflexivity.
+  Qed.
 End C01.
